@@ -111,6 +111,7 @@ PROPS['C03'] = dict(
         H('parser', 'cfg::sexpr', 'c03_k_span_cover', kind='complete', covers='all usize position quadruples of one file',
           functions=['parser/src/cfg/sexpr.rs Position::new', 'parser/src/cfg/sexpr.rs Span::new', 'parser/src/cfg/sexpr.rs Span::cover']),
         H('parser', 'cfg::sexpr', 'c03_k_span_cover_neg', kind='complete', expect='fail', covers='must-fail twin: without same-file ordering the assert fires'),
+        H('parser', 'cfg', 'c02_k_key_max_fits_row', kind='complete', covers='every known key code is a valid column of a layer row (parse_layers indexes by it)', functions=['parser/src/layers.rs KEYS_IN_ROW']),
     ],
     assumptions=[
         'NOT decided: totality and termination of the lexer, the list builder, every parse_* function, includes, templates, defvar recursion, miette rendering',
@@ -261,10 +262,11 @@ PROPS['C09'] = dict(
 
 def _c02_kani():
     """C02 = union of the panic-/overflow-freedom obligations of every harness that must pass.
-    quick: one representative per unit; thorough: all of them."""
-    quick = {'c09_k_next_coord', 'c06_b_tick', 'c06_b_release_overflow', 'c05_b_tick_wt_hold_tap', 'c17_b_tick_wt_tap_dance',
-             'c09_b_get_action_once', 'c03_b_debug_shape_empty', 'c03_k_span_cover'}
+    quick: every harness that is quick in its own property, except the one expensive full-domain
+    key-table harness; thorough: all of them."""
+    slow = {'c11_k_codes'}
     out = [
+        H('parser', 'cfg', 'c02_k_key_max_fits_row', kind='complete', covers='all codes 0..=KEY_MAX as layer-row column', functions=['parser/src/layers.rs KEYS_IN_ROW (row width relied on by parse_layers, create_defsrc_layer, Layout::resolve_coord)']),
         H('keyberon', 'layout', 'c02_b_history', kind='bounded', bound='<= 10 pushes into the 8-slot history', functions=[L + 'History::{push_front,tick_hist,iter_hevents}']),
         H('keyberon', 'layout', 'c02_k_history_saturates', kind='complete'),
     ]
@@ -275,7 +277,7 @@ def _c02_kani():
                 continue
             seen.add(h['name'])
             hh = dict(h)
-            if h['name'] not in quick:
+            if h.get('tier', 'quick') == 'thorough' or h['name'] in slow:
                 hh['tier'] = 'thorough'
             else:
                 hh['tier'] = 'quick'
@@ -293,7 +295,7 @@ PROPS['C02'] = dict(
     level_note='The universal statement (whole system, all accepted configs, all histories) is out of reach of contracts; only per-function panic-freedom is decided. Parser-side range checks the run time relies on (non-zero intervals, depth <= 8) are assumed.',
     technique='contract-based: Verus (overflow/bounds/unwrap/assert sites as obligations) + Kani default checks on the harnesses of C03 C05 C06 C09 C10 C11 C17',
     design_ref='DESIGN.md section 4, C02',
-    explanation='union of panic-freedom obligations; quick tier runs one representative harness per unit, thorough all of them',
+    explanation='union of panic-freedom obligations of every function under contract; the quick tier leaves out only the harnesses that are thorough-tier in their own property and the full-domain key table harness',
     verus=[dict(unit='dynmacro', only=DYN_FUNCS), dict(unit='switch')],
     kani=_c02_kani(),
     assumptions=[
